@@ -24,15 +24,28 @@ pub open spec fn v1_addresses_text(h: Seq<u8>, a: V1Addresses) -> Seq<u8> {
     if t.len() > 0 && t[0] == 32u8 { t.subrange(1, t.len() as int) } else { t }
 }
 
-/// minimal shape of an accepted v1 header value that the accessors rely on: the text starts
-/// with `PROXY <protocol>` and ends with CRLF (what the parser returns; see c01_post)
-pub open spec fn v1_header_wf(h: V1Header) -> bool {
+/// shape of a line with an accepting verdict (lemma_accept_shape)
+pub open spec fn v1_accept_shape(w: Seq<u8>, a: V1Addresses) -> bool {
+    let p = v1_protocol_bytes(a);
+    w.len() >= 6 + p.len() + 2 && w.len() <= 107
+    && w.subrange(0, 5) =~= b_proxy() && is_sep(w[5])
+    && w.subrange(6, 6 + p.len() as int) =~= p && is_sep(w[6 + p.len() as int])
+    && is_suffix_of(b_crlf(), w)
+}
+
+/// what the v1 accessors need in order not to panic (C03): room for `PROXY <protocol>` and the
+/// CRLF, with one-byte characters at the two cut points
+pub open spec fn v1_header_safe(h: V1Header) -> bool {
     let s = cow_str_bytes(h.header);
     let p = v1_protocol_bytes(h.addresses);
-    s.len() >= 5 + 1 + p.len() + 2
-    && is_prefix_of(b_proxy() + seq![32u8] + p, s)
-    && is_suffix_of(b_crlf(), s)
-    && (s[5 + 1 + p.len() as int] == 32u8 || s[5 + 1 + p.len() as int] == 13u8)
+    s.len() >= 6 + p.len() + 2 && s[6 + p.len() as int] < 128 && s[s.len() - 2] < 128
+}
+
+/// an accepted v1 header value (C15): the text is `PROXY`, a space, the protocol keyword, a space
+/// or the CR of the CRLF, ..., CRLF
+pub open spec fn v1_header_wf(h: V1Header) -> bool {
+    let s = cow_str_bytes(h.header);
+    v1_accept_shape(s, h.addresses) && s[5] == 32u8 && first_index_of(s, 13u8) + 2 == s.len()
 }
 
 pub open spec fn v1_err_incomplete(e: V1Error) -> bool {
